@@ -241,13 +241,15 @@ def showPValues : Option (List PValue) → String
   | none => "none"
   | some vs => ";".intercalate (vs.map fun v => s!"{showCps v.timex}~{showCps v.type}~{showCps v.start}~{showCps v.«end»}")
 
-/-- m2tp padded(1 = repaired zero-padded timex) ok1 timex1 comment1 future1 ok2 timex2 comment2 future2 -> pres (merge_two_time_points)
+/-- m2tp padded(1 = repaired zero-padded timex) secs(1 = repaired integer minutes + seconds; 0 = float minutes, printed as the
+    marker `{<diff>}` that the harness replaces by the interpreter's repr of diff / 60 % 60) ok1 timex1 comment1 future1 ok2 timex2 comment2 future2 -> pres (merge_two_time_points)
     tpres ok timex comment startS endS -> pvalues (time-range resolution) -/
 def hM2TP : Handler
-  | [padded, ok1, tx1, c1, f1, ok2, tx2, c2, f2] =>
+  | [padded, secs, ok1, tx1, c1, f1, ok2, tx2, c2, f2] =>
     let mk (ok tx c f : String) : Slot :=
       toSlot .time { success := parseBool ok, timex := parseCps tx, comment := parseCps c, future := parseDT f, past := parseDT f }
-    showExcept showPRes (mergeTwoTimePoints (mk ok1 tx1 c1 f1) (mk ok2 tx2 c2 f2) (parseBool padded))
+    showExcept showPRes (mergeTwoTimePoints (mk ok1 tx1 c1 f1) (mk ok2 tx2 c2 f2) (parseBool padded)
+      (fun diff => [123] ++ RTV.DtRes.decStr diff ++ [125]) (parseBool secs))
   | _ => "bad-op"
 
 def hTPRes : Handler
